@@ -7,10 +7,12 @@ package verifcrash
 
 import (
 	"fmt"
+	"hash/fnv"
 	"os"
 	"strconv"
 	"sync"
 	"syscall"
+	"unsafe"
 )
 
 var (
@@ -41,7 +43,46 @@ func Arm()    { mu.Lock(); armed = true; mu.Unlock() }
 func Disarm() { mu.Lock(); armed = false; mu.Unlock() }
 
 // Reset zeroes the hit counter (one process measuring several executions).
-func Reset() { mu.Lock(); count = 0; labels = nil; mu.Unlock() }
+func Reset() { mu.Lock(); count = 0; labels = nil; sig = 1469598103934665603; mu.Unlock() }
+
+// TrackSig makes the syscall hook keep a running signature of the file mutations performed so far: which client
+// issued it (Who), syscall, file descriptor, length and offset. The bytes themselves are left out on purpose: message
+// and lease ids are random, so two executions never write the same bytes, while "the same clients performed the same
+// writes in the same order" is the same file state up to the renaming of those ids. The concurrent crash enumeration
+// uses it to skip (schedule, crash point) pairs that would repeat a run. Sig returns the signature BEFORE the crash
+// point that is being counted.
+var TrackSig bool
+
+// Who names the client on whose behalf the current syscall is issued (set by the harness; nil = not tracked).
+var Who func() int
+var sig uint64 = 1469598103934665603
+
+func Sig() uint64 { mu.Lock(); defer mu.Unlock(); return sig }
+
+func mix(vals ...uint64) {
+	h := fnv.New64a()
+	var b [8]byte
+	put := func(v uint64) {
+		for i := 0; i < 8; i++ {
+			b[i] = byte(v >> (8 * i))
+		}
+		h.Write(b[:])
+	}
+	put(sig)
+	for _, v := range vals {
+		put(v)
+	}
+	sig = h.Sum64()
+}
+
+func contentHash(ptr, n int64) uint64 {
+	if ptr == 0 || n <= 0 || n > 1<<26 {
+		return 0
+	}
+	h := fnv.New64a()
+	h.Write(unsafe.Slice((*byte)(unsafe.Pointer(uintptr(ptr))), int(n)))
+	return h.Sum64()
+}
 
 // Count returns the number of crash points passed so far.
 func Count() int { mu.Lock(); defer mu.Unlock(); return count }
@@ -104,6 +145,27 @@ func Syscall(n, a1, a2, a3, a4, a5, a6 int64) {
 		}
 	}
 	hit("sys:" + name)
+	if TrackSig {
+		// after the crash point was counted: this mutation is part of what later crash points find on disk
+		mu.Lock()
+		if armed {
+			who := uint64(0)
+			if Who != nil {
+				who = uint64(Who() + 1)
+			}
+			switch n {
+			case 1: // write(fd, buf, len)
+				mix(who, uint64(n), uint64(a1), uint64(a3))
+			case 18: // pwrite64(fd, buf, len, off)
+				mix(who, uint64(n), uint64(a1), uint64(a3), uint64(a4))
+			case 77, 76: // ftruncate(fd, len) / truncate
+				mix(who, uint64(n), uint64(a1), uint64(a2))
+			default:
+				mix(who, uint64(n), uint64(a1))
+			}
+		}
+		mu.Unlock()
+	}
 }
 
 // Log appends one line to the side log with a raw write(2).
